@@ -562,13 +562,17 @@ fn main() {
     let results: Arc<Mutex<Vec<Option<Vec<Value>>>>> = Arc::new(Mutex::new(vec![None; total]));
     std::fs::create_dir_all(&scratch).expect("scratch");
     let mut handles = vec![];
-    for _ in 0..jobs.max(1) {
+    // timed (TTL) behaviours: spread the workers over one tick so that their tick boundaries do not coincide
+    let timed = text.contains("\"t\":\"tick\"") || text.contains("\"t\": \"tick\"");
+    for w in 0..jobs.max(1) {
+        let stagger = if timed { Duration::from_millis(hdr.tick_ms * w as u64 / jobs.max(1) as u64) } else { Duration::ZERO };
         let q = queue.clone();
         let res = results.clone();
         let hdr = hdr.clone();
         let scratch = scratch.clone();
         handles.push(std::thread::spawn(move || {
             let rt = tokio::runtime::Builder::new_current_thread().enable_all().build().expect("rt");
+            std::thread::sleep(stagger);
             loop {
                 let item = q.lock().unwrap().pop_front();
                 let Some((i, b)) = item else { break };
